@@ -325,7 +325,10 @@ def _vf_call(f, *a, **k):
         if f is copy.copy:
             with hash_ok():
                 return f(*a, **k)
-        return f(*a, **k)
+        m = getattr(f, '__module__', None)
+        if m is not None and m.startswith('ZConfig'):
+            return f(*a, **k)
+        return _native(f, a, k)
     if tf is _BUILTIN_METH:
         slf = f.__self__
         ts = type(slf)
@@ -350,7 +353,7 @@ def _vf_call(f, *a, **k):
             elif f is sorted and a and isinstance(a[0], _KEYS_TYPES):
                 with hash_ok():
                     return f(*a, **k)
-            return f(*a, **k)
+            return _native(f, a, k)
         if ts is str:
             return _str_method(slf, f, a, k)
         if isinstance(slf, dict):
@@ -365,6 +368,20 @@ def _vf_call(f, *a, **k):
                     return f(*a, **k)
         return f(*a, **k)
     return f(*a, **k)
+
+
+def _native(f, a, k):
+    """call code that is not compiled through the hook; a TypeError it raises *because* it was
+    handed a proxy is an engine limitation (-> Unsupported, the path degrades to concrete
+    sampling), not behaviour of the code under test"""
+    try:
+        return f(*a, **k)
+    except TypeError as e:
+        msg = str(e)
+        if ('SymStr' in msg or 'SymInt' in msg or 'SymBool' in msg):
+            raise Unsupported('native %s cannot take a symbolic argument (%s)'
+                              % (getattr(f, '__qualname__', f), msg[:80])) from None
+        raise
 
 
 def _getenv(name, default=None):
